@@ -81,6 +81,16 @@ func Choose(n int, tag uint32) int {
 	steps[nsteps] = Step{Tid: int8(current), Choice: choice, NEnabled: int8(n), Kind: KEnv, Tag: tag, Key: key}
 	nsteps++
 
+	if choice > 0 {
+		costE++
+	}
+
+	if hbSeen != nil && prunedAt < 0 && nsteps >= nprefix {
+		if hbSeen.insert(mix(key, uint64(current)+1), costP+16*costE) && hbPrune {
+			prunedAt = nsteps
+		}
+	}
+
 	return int(choice)
 }
 
